@@ -459,17 +459,36 @@ def a_choice_no_name(form, j):
     return f, {"row": j + 2, "sheet": "choices", "cites": ["name"], "model": False}
 
 
+DUP_CHOICE_VARIANTS = ("labelled", "dup-unlabelled", "orig-unlabelled", "dup-image-only", "both-unlabelled")
+
+
 def s_dup_choice(form):
     out = []
     for ln, idx in lists_of(form).items():
-        out += [(idx[k], idx[k - 1]) for k in range(1, len(idx))]
+        out += [(idx[k], idx[k - 1], v) for k in range(1, len(idx)) for v in DUP_CHOICE_VARIANTS]
+        # non-adjacent duplicates (first and last choice of the list)
+        if len(idx) > 2:
+            out += [(idx[-1], idx[0], v) for v in DUP_CHOICE_VARIANTS]
     return out
 
 
+def _strip_labels(ch):
+    for k in [k for k in ch if k == "label" or k.startswith("label::")]:
+        del ch[k]
+
+
 def a_dup_choice(form, site):
-    j, k = site
+    """choice j gets the name of choice k of the same list; in the variants one (or both) of the two rows has
+    no label cell at all (left blank, or a picture-only choice) — the duplicate is refused all the same"""
+    j, k, v = site
     f = clone(form)
     f["choices"][j]["name"] = f["choices"][k]["name"]
+    if v in ("dup-unlabelled", "both-unlabelled", "dup-image-only"):
+        _strip_labels(f["choices"][j])
+    if v in ("orig-unlabelled", "both-unlabelled"):
+        _strip_labels(f["choices"][k])
+    if v == "dup-image-only":
+        f["choices"][j]["image"] = "pic.png"
     return f, {"row": j + 2, "sheet": "choices", "cites": ["name"], "model": False}
 
 
@@ -718,6 +737,66 @@ def a_dup_external(form, p):
     if in_repeat(f["survey"], p):
         return None, None
     return f, {"cites": [n], "model": False}
+
+
+FILE_SELECTS = ("select_one_from_file", "select_multiple_from_file")
+FILE_EXT_PAIRS = ((".csv", ".xml"), (".csv", ".geojson"), (".xml", ".geojson"), (".xml", ".csv"))
+
+
+def s_file_stem_clash(form):
+    return [(p, a, b, e, w) for p in positions(form) for a in (0, 1) for b in (0, 1) for e in range(len(FILE_EXT_PAIRS))
+            for w in ("adjacent", "far", "in-group")]
+
+
+def a_file_stem_clash(form, site):
+    """two selects from file whose file names share the stem (= the instance id) but not the extension
+    (= the URI): same id, different source — an instance clash like any other"""
+    p, a, b, e, where = site
+    stem = fresh(form, "places")
+    e1, e2 = FILE_EXT_PAIRS[e]
+    r1 = {"type": f"{FILE_SELECTS[a]} {stem}{e1}", "name": stem + "_s1", "label": "S1"}
+    r2 = {"type": f"{FILE_SELECTS[b]} {stem}{e2}", "name": stem + "_s2", "label": "S2"}
+    f = clone(form)
+    if where == "adjacent":
+        f["survey"][p:p] = [r1, r2]
+    elif where == "far":
+        f["survey"].insert(p, r1)
+        f["survey"].append(r2)
+    else:
+        f["survey"].insert(p, r1)
+        f["survey"] += [{"type": "begin group", "name": stem + "_g", "label": "G"}, r2, {"type": "end group"}]
+    return f, {"cites": [stem], "model": False}
+
+
+def s_file_vs_other_clash(form):
+    return [(p, v) for p in positions(form) for v in ("csv-external", "xml-external", "pulldata", "choices-list")]
+
+
+def a_file_vs_other_clash(form, site):
+    """a select from file against another source of the same instance id"""
+    p, v = site
+    stem = fresh(form, "places")
+    f = clone(form)
+    if v == "csv-external":
+        rows = [{"type": "csv-external", "name": stem}, {"type": f"select_one_from_file {stem}.xml", "name": stem + "_s", "label": "S"}]
+    elif v == "xml-external":
+        rows = [{"type": "xml-external", "name": stem}, {"type": f"select_one_from_file {stem}.geojson", "name": stem + "_s", "label": "S"}]
+    elif v == "pulldata":
+        rows = [{"type": "calculate", "name": stem + "_c", "calculation": f"pulldata('{stem}', 'a', 'b', 'c')"},
+                {"type": f"select_one_from_file {stem}.xml", "name": stem + "_s", "label": "S"}]
+    else:
+        ch = f.setdefault("choices", [])
+        langs = sorted({k for c in ch for k in c if k.startswith("label::")})
+        row = {"list_name": stem, "name": "o1"}
+        for k in langs or ["label"]:
+            row[k] = "O"
+        ch.append(row)
+        rows = [{"type": f"select_one {stem}", "name": stem + "_l", "label": "L"},
+                {"type": f"select_one_from_file {stem}.xml", "name": stem + "_s", "label": "S"}]
+    f["survey"][p:p] = rows
+    if in_repeat(f["survey"], p) and v in ("csv-external", "xml-external"):
+        pass  # external instances inside a repeat are legal since e11ec61
+    return f, {"cites": [stem], "model": False}
 
 
 # ------------------------------------------------------------------ entities
@@ -1040,6 +1119,8 @@ CATALOGUE = [
     ("search_shared_list", positions, a_search_shared_list),
     ("instance_clash", positions, a_instance_clash),
     ("dup_external", positions, a_dup_external),
+    ("file_stem_clash", s_file_stem_clash, a_file_stem_clash),
+    ("file_vs_other_clash", s_file_vs_other_clash, a_file_vs_other_clash),
     ("entities_two_rows", s_once, a_entities_two_rows),
     ("entities_unknown_col", s_once, a_entities_unknown_col),
     ("entities_bad_dataset", s_entities_bad_dataset, a_entities_bad_dataset),
